@@ -241,7 +241,7 @@ pub fn c05(cx: &RunCtx) {
 
 // ---------------------------------------------------------------- C06
 pub fn c06(cx: &RunCtx) {
-    cx.assume("the oracle is exact arithmetic in i128 followed by the rules of C06; x<<y that does not fit, MIN/-1 and exponents outside 0..4294967295 carry no demand");
+    cx.assume("the oracle is exact arithmetic in i128 followed by the rules of C06; x<<y that does not fit and exponents outside 0..4294967295 carry no demand; MIN / -1 must be Err (no i64 is the quotient, so any Ok value would be fabricated)");
     let kinds = [Kind::Value, Kind::WellFormedErr, Kind::MustErrOk];
     crate::fam::sign_runs::<I64>(cx, &kinds);
     crate::fam::big_integers_one::<I64>(cx, &kinds);
